@@ -27,7 +27,7 @@ func init() {
 		NumCases:    func(tier string) int { return pick(tier, 600, 20000) + pick(tier, 200, 5000) + pick(tier, 400, 12000) },
 		Run:         runC14,
 		Floor: func(tier string, st map[string]int64) string {
-			for _, k := range []string{"decodes", "c14.encoder-files-read", "c14.copyto-images-decoded", "c14.big-value-cases", "c14.max-key-cases", "c14.empty-collection-images", "c14.root-last-checked", "c14.concurrent-flush-images", "c14.length-changing-codec-cases", "c14.copyto-into-existing-store"} {
+			for _, k := range []string{"decodes", "c14.encoder-files-read", "c14.copyto-images-decoded", "c14.big-value-cases", "c14.max-key-cases", "c14.empty-collection-images", "c14.root-last-checked", "c14.concurrent-flush-images", "c14.length-changing-codec-cases", "c14.copyto-into-existing-store", "c14.custom-comparator-cases", "c14.reentrant-images-decoded"} {
 				if st[k] == 0 {
 					return "no " + k + " observed"
 				}
@@ -48,12 +48,25 @@ func runC14(ctx *Ctx, idx int) Result {
 	if idx >= nw {
 		return runC14Encoder(ctx, idx, r)
 	}
+	if idx%50 == 49 {
+		// the store is used from inside BeforeItemWrite (an audit collection written / left dirty in the
+		// middle of a Flush): the file must still be a well-formed v4 file holding what was set
+		res := runReentrantWrites(ctx, idx, r, 1+idx/50%2, true)
+		ctx.Stats["c14.reentrant-callback-cases"]++
+		return res
+	}
 	cfg := driver.Config{Decode: true, KeepLog: true, CB: driver.CBMask(r.Intn(64)) &^ (driver.CBAlloc | driver.CBRef)}
 	hc := HistCfg{Steps: r.Range(20, 70), NColls: r.Range(0, 4), NKeys: r.Range(3, 12), KeyClass: gen.KeyClass(r.Intn(int(gen.NumKeyClasses))),
 		ValClass: []gen.ValClass{gen.ValsMixed, gen.ValsMagic, gen.ValsShort}[r.Intn(3)], Prio: gen.PrioRegime(r.Intn(int(gen.NumPrioRegimes))), Mix: mixC14, Exotic: r.P(50)}
 	if hc.KeyClass == gen.KeysMixed || hc.KeyClass == gen.KeysLong {
 		hc.NKeys = 5
 		ctx.Stats["c14.max-key-cases"]++
+	}
+	if idx%4 == 1 {
+		// every other collection is ordered by an application comparator (reverse / length-first): key order in
+		// the file, and in every CopyTo destination, is the collection's own
+		hc.CustomCmp = true
+		ctx.Stats["c14.custom-comparator-cases"]++
 	}
 	if idx%6 == 4 {
 		// a value codec whose on-disk form is twice as long as Item.Val: record lengths, item locations
